@@ -7,6 +7,7 @@
 
 mod alloc;
 mod canon;
+mod dispatch;
 mod gs1;
 mod gs2;
 mod games;
@@ -42,6 +43,7 @@ fn entries() -> Vec<(&'static str, EntryFn)> {
     v.extend(master::entries());
     v.extend(settings::entries());
     v.extend(games::entries());
+    v.extend(dispatch::entries());
     v.extend(idcheck::entries());
     v.extend(quake::entries());
     v.extend(real::entries());
